@@ -67,7 +67,7 @@ BasicRowOK(r) == /\ NoColonInUsers(r.pairs)
                  /\ BasicRefines(r.pairs, r.hdr)
                  \* the oracle is a function of the decoded text only: an exact header is admitted iff its text is a configured u:p
                  /\ (r.hdr.kind = "basic" => (AllowedBasic(r.pairs, r.hdr) = {"ran"}) = CredOK(r.pairs, r.hdr.cred))
-                 /\ (r.hdr.kind \in OtherKinds => AllowedBasic(r.pairs, r.hdr) = {"challenge"})
+                 /\ (r.hdr.kind \in OtherKinds => "ran" \notin AllowedBasic(r.pairs, r.hdr) /\ "challenge" \in AllowedBasic(r.pairs, r.hdr))
                  /\ AllowedBasic(r.pairs, r.hdr) # {}
 
 (***************************************************************************)
